@@ -519,8 +519,46 @@ def gen_tree(rng, schema, ds, table, cols, opts, prefix, depth):
     return lines
 
 
+def gen_index_shape(rng, schema, ds, table, cols, opts):
+    """filters built around the index pre-selection: an indexable term next to sub-groups that hold no indexable term,
+    negated terms, or indexable terms of their own, under Or and And parents"""
+    def plain():
+        return ["Filter: " + gen_leaf(rng, schema, ds, table, cols, dict(opts, index_p=0.0))]
+
+    def indexed():
+        leaf = gen_index_leaf(rng, schema, ds, table)
+        return ["Filter: " + leaf] if leaf else plain()
+
+    def group():
+        k = rng.choice([1, 2, 2])
+        members = []
+        for _ in range(k):
+            members += indexed() if rng.random() < 0.4 else plain()
+            if rng.random() < 0.15:
+                members.append("Negate:")
+        members.append("%s: %d" % (rng.choice(["And", "And", "Or"]), k))
+        if rng.random() < 0.3:
+            members.append("Negate:")
+        return members
+
+    parts = [indexed(), group()]
+    if rng.random() < 0.4:
+        parts.append(rng.choice([plain, indexed, group])())
+    rng.shuffle(parts)
+    lines = [l for part in parts for l in part]
+    lines.append("%s: %d" % (rng.choice(["Or", "Or", "And"]), len(parts)))
+    if rng.random() < 0.1:
+        lines.append("Negate:")
+    return lines
+
+
 def gen_filter_lines(rng, schema, ds, table, cols, opts):
     lines = []
+    if table in ("hosts", "services", "hostgroups", "servicegroups", "comments", "downtimes", "contacts") and rng.random() < opts.get("index_shape_p", 0.1):
+        try:
+            return gen_index_shape(rng, schema, ds, table, cols, opts)
+        except (IndexError, KeyError, ValueError):
+            pass
     n = rng.choice(opts.get("nfilters", [0, 1, 1, 1, 2, 3]))
     for _ in range(n):
         lines += gen_tree(rng, schema, ds, table, cols, opts, "Filter", rng.choice(opts.get("depth", [0, 1, 2, 3])))
@@ -580,10 +618,11 @@ def gen_extra_headers(rng, schema, ds, table, cols, opts):
                 lines.append(("Sort: %s %s" % (c["name"], d)).rstrip())
         # the table's default order (triggers the per-backend early cut) and near misses of it
         r = rng.random()
-        if r < 0.45 and table in ("hosts", "services"):
+        near_p = opts.get("near_default_p", 0.45)
+        if r < near_p and table in ("hosts", "services"):
             lines = [l for l in lines if not l.startswith("Sort:")]
             keys = [["name", "asc"]] if table == "hosts" else [["host_name", "asc"], ["description", "asc"]]
-            if r >= 0.25:
+            if r >= near_p * 0.4:
                 m = rng.choice(["flip", "flip_last", "swap", "extra", "drop"])
                 if m == "flip":
                     rng.choice(keys)[1] = "desc"
